@@ -442,8 +442,72 @@ func (g *tgen) genValueOpt(t *Ty, dropReq bool) *Val {
 	return v
 }
 
+// documents whose output exceeds the converters' initial buffer (4096 B): output buffer growth / ERR_OOM_BUF re-entry in the native path
+func genC18Large(r *rng, n int) []c18Item {
+	var items []c18Item
+	for d := 0; d < n/400+3; d++ {
+		g := newTgen(r.fork())
+		root := &Ty{K: thrift.STRUCT, Name: "L1", Fields: []*Fld{
+			{ID: 1, Name: "a", T: &Ty{K: thrift.LIST, Elem: &Ty{K: thrift.I64}}},
+			{ID: 2, Name: "b", T: &Ty{K: thrift.LIST, Elem: &Ty{K: thrift.STRING}}},
+			{ID: 3, Name: "c", T: &Ty{K: thrift.MAP, Key: &Ty{K: thrift.STRING}, Elem: &Ty{K: thrift.I32}}},
+			{ID: 4, Name: "d", T: &Ty{K: thrift.STRING, Binary: true}},
+			{ID: 5, Name: "e", T: &Ty{K: thrift.SET, Elem: &Ty{K: thrift.DOUBLE}}},
+		}}
+		g.structs = []*Ty{root}
+		desc, err := parseThrift(g.idl(root), thrift.Options{})
+		if err != nil {
+			die("large idl: %v", err)
+		}
+		v := &Val{T: root}
+		target := 4096 + r.intn(3)*4096 + r.intn(200) - 100 // total output size lands near a multiple of the buffer size
+		for _, f := range root.Fields {
+			fv := &Val{T: f.T}
+			budget := target / 5
+			switch f.ID {
+			case 1:
+				if d%2 == 0 {
+					// one-digit integers: 2 bytes of JSON become 8 bytes of output, so the output outgrows the buffer the converter
+					// reserves from the input length (ERR_OOM_BUF re-entry in the native path, append growth in the portable one)
+					for i := 0; i < target/4; i++ {
+						fv.Elems = append(fv.Elems, &Val{T: f.T.Elem, I: int64(r.intn(10))})
+					}
+					break
+				}
+				for i := 0; i < budget/8; i++ {
+					fv.Elems = append(fv.Elems, &Val{T: f.T.Elem, I: int64(r.u64())})
+				}
+			case 2:
+				for used := 0; used < budget; {
+					e := &Val{T: f.T.Elem, S: c18Str(r)}
+					used += 4 + len(e.S)
+					fv.Elems = append(fv.Elems, e)
+				}
+			case 3:
+				for i := 0; i*12 < budget; i++ {
+					fv.Keys = append(fv.Keys, &Val{T: f.T.Key, S: []byte(fmt.Sprintf("k%05d", i))})
+					fv.Elems = append(fv.Elems, &Val{T: f.T.Elem, I: int64(int32(r.u64()))})
+				}
+			case 4:
+				fv.S = r.bytes(budget)
+			case 5:
+				for i := 0; i < budget/8; i++ {
+					fv.Elems = append(fv.Elems, &Val{T: f.T.Elem, D: math.Float64bits(float64(int64(r.next()>>20)) / 64)})
+				}
+			}
+			v.FIDs = append(v.FIDs, f.ID)
+			v.Fields = append(v.Fields, fv)
+		}
+		p := &jsp{r: r.fork(), wrongAt: -1, ws: []int{0, 10}[r.intn(2)], num: []int{0, 30}[r.intn(2)]}
+		doc := p.value(nil, v)
+		items = append(items, &j2tItem{shape: g.c18Shape(root), optb: 0, desc: desc, doc: doc, into: d%4 < 3})
+	}
+	return items
+}
+
 func genC18J2T(r *rng, n int) []c18Item {
 	var items []c18Item
+	items = append(items, genC18Large(r.fork(), n)...)
 	ndesc := n/12 + 4
 	for d := 0; d < ndesc; d++ {
 		g := newTgen(r.fork())
